@@ -30,6 +30,7 @@ from .c05 import op_classes
 from .c05 import op_name
 from .common import callee_name
 from .common import calls
+from .common import expand_locals
 from .common import class_of
 from .common import selector_kind_flow
 
@@ -155,12 +156,7 @@ def r20_4(ctx: Ctx) -> RuleResult:
         for w in writes:
             if isinstance(w, ast.Subscript) and path_of(w.value) in parent_vars:
                 # key must derive from the last part of self.path
-                src = ast.unparse(w.slice)
-                derives = "self.path.parts[-1]" in src or any(
-                    isinstance(a, ast.Assign) and path_of(a.targets[0]) in {x.id for x in ast.walk(w.slice) if isinstance(x, ast.Name)}
-                    and "self.path.parts[-1]" in ast.unparse(a.value)
-                    for a in ast.walk(fn.node)
-                )
+                derives = "self.path.parts[-1]" in ast.unparse(expand_locals(fn.node, w.slice))
                 if derives:
                     continue
                 ok = False
